@@ -53,7 +53,7 @@ PRIORITY = [
     "none-attribute-hash:set-of-structures",
     "dropped:undeclared-keys", "unnormalised:boolean-string", "defaults-not-applied",
     "unnormalised:enum-name", "unnormalised:inline-dict", "unnormalised:float-int",
-    "mapper:cascade", "mapper:fallback",
+    "mapper:base-chain", "mapper:cascade", "mapper:fallback",
     # fast serialization: instance-level causes first, then declaration-level ones
     "fast:extras-dropped", "fast:compact-conditions",
     "fast:positional-index:deque", "fast:json-dumps", "fast:untyped-raw", "fast:inline-none-keys",
@@ -183,6 +183,8 @@ def judge_trusted(case, impl, model):
                         detail = json.dumps(sx["ok"])[:150] + " vs " + json.dumps(sy["ok"])[:150]
             if what:
                 tag_list = list(model.get("declDefects", [])) + list(model.get("docIssues", []))
+                if not mapper_free and model.get("baseChain"):
+                    tag_list.append("mapper:base-chain")
                 if not mapper_free and model.get("cascade"):
                     tag_list.append("mapper:cascade")
                 if not mapper_free and _uses_unmapped_names(cls, case["doc"], case.get("mapperSpec") or {}):
